@@ -22,7 +22,7 @@ LEVEL = "fault_enumeration"
 RUN_WALL_S = 30
 TIERS = {
     "quick": {"cases": 16000, "episode": 50, "selftest": 32, "wall_cap_s": 600, "shrink_s": 45},
-    "thorough": {"cases": 1_500_000, "episode": 100, "selftest": 256, "wall_cap_s": 3 * 3600, "shrink_s": 120, "distinct_sample": 64},
+    "thorough": {"cases": 600_000, "episode": 100, "selftest": 256, "wall_cap_s": 3 * 3600, "shrink_s": 120},
 }
 RULE = ("a case draws a workload (stream kind, 1-6 small packets or a longer stream, prefix k, source kind, consumer, "
         "read size, chunking) and, for streams <= 160 bytes, the runner enumerates EVERY cut offset 0..len(S) of that "
